@@ -301,4 +301,12 @@ def r6(ctx):
     relabel(ctx, "C08.R6", c05.r1)
 
 
-RULES = [("C08.R1", r1), ("C08.R2", r2), ("C08.R3", r3), ("C08.R4", r4), ("C08.R5", r5), ("C08.R6", r6)]
+
+def s1(ctx):
+    """shared mechanism: all parts of one build agree on the output type before an encoding is shared between them (pooled-attribute guard, = C18.R2)"""
+    from .shared import relabel
+    from . import c18
+    relabel(ctx, "C08.S1", c18.r2)
+
+
+RULES = [("C08.R1", r1), ("C08.R2", r2), ("C08.R3", r3), ("C08.R4", r4), ("C08.R5", r5), ("C08.R6", r6), ("C08.S1", s1)]
